@@ -367,3 +367,164 @@ Example C09_example_shapes :
   shape_root true (DNode 0 1 2 [DNode 1 3 3 [DNode 2 3 3 []]]) = Some (DNode 0 1 2 [DNode 1 3 3 [DNode 2 3 3 []]]).
 Proof. vm_compute. repeat split; reflexivity. Qed.
 Print Assumptions C09_example_shapes.
+
+(* ---- Layer W, the returned store is well-formed ---------------------------------------------------------------------- *)
+From PTN Require Evo.BUGStoreWf TTN.InvSem.
+
+(* (g) under the hypotheses of (e), the store RETURNED by the step satisfies the executable store invariant `wfb`
+   (TTN/Inv.v: equal key sets of node and tensor dictionaries, one parentless node = root, permutations, recorded
+   shape = dimensions of the tensor's wires, symmetric parent / children links, both ends of every edge carry the same
+   wire, owned wires pairwise distinct, registered wires, acyclic) - both variants, every tree.  new_state is not
+   well-formed between the pull of a node and its split_node_replace; the proof (Evo/BUGStoreWf.v) describes every
+   finished node exactly instead: logical axes = [new parent wire; the children's new parent wires in node order; the
+   open wires the node has in the caller's state], the new parent wires pairwise distinct and allocated during the step *)
+Theorem C09_store_step_wfb : forall (fixed : bool) (bcoff : nat) (tmp : Store.id) (t : rtree) (cs cs' : Canon.cstore),
+  Inv.wfb (fst cs) = true ->
+  (forall k, In k (Store.akeys (Store.nodes (fst cs))) -> Store.aget (BUGStore.bcid bcoff k) (Store.nodes (fst cs)) = None) ->
+  Store.aget tmp (Store.nodes (fst cs)) = None ->
+  Store.root (fst cs) = Some (rid t) -> snd cs = Some (rid t) ->
+  BUGStoreProofs.tree_of (Store.nodes (fst cs)) t -> NoDup (ids t) ->
+  (forall k nd, Store.aget k (Store.nodes (fst cs)) = Some nd -> Store.parent nd <> None -> Store.children nd = [] -> Store.nopen nd = 1) ->
+  BUGStore.root_update fixed bcoff tmp t cs = Some cs' -> Inv.wfb (fst cs') = true.
+Proof. exact BUGStoreWf.root_update_wfb. Qed.
+Print Assumptions C09_store_step_wfb.
+
+(* the Prop form of the same statement (TTN/Inv.v `wf`; equivalent to wfb by InvProofs.wfb_iff) *)
+Theorem C09_store_step_wf : forall (fixed : bool) (bcoff : nat) (tmp : Store.id) (t : rtree) (cs : Canon.cstore),
+  Inv.wfb (fst cs) = true ->
+  (forall k, In k (Store.akeys (Store.nodes (fst cs))) -> Store.aget (BUGStore.bcid bcoff k) (Store.nodes (fst cs)) = None) ->
+  Store.aget tmp (Store.nodes (fst cs)) = None ->
+  Store.root (fst cs) = Some (rid t) -> snd cs = Some (rid t) ->
+  BUGStoreProofs.tree_of (Store.nodes (fst cs)) t -> NoDup (ids t) ->
+  (forall k nd, Store.aget k (Store.nodes (fst cs)) = Some nd -> Store.parent nd <> None -> Store.children nd = [] -> Store.nopen nd = 1) ->
+  exists cs', BUGStore.root_update fixed bcoff tmp t cs = Some cs' /\ Inv.wf (fst cs').
+Proof. exact BUGStoreWf.root_update_wf. Qed.
+Print Assumptions C09_store_step_wf.
+
+(* (h) (e), (f) and (g) together: the step is accepted, the returned store is well-formed, identifiers / parent pointers /
+   children sets are kept, every temporary is gone, root unchanged, recorded centre = root, canonical at the root, the
+   global tables only grew *)
+Theorem C09_store_step_total_wf : forall (fixed : bool) (bcoff : nat) (tmp : Store.id) (t : rtree) (cs : Canon.cstore),
+  Inv.wfb (fst cs) = true ->
+  (forall k, In k (Store.akeys (Store.nodes (fst cs))) -> Store.aget (BUGStore.bcid bcoff k) (Store.nodes (fst cs)) = None) ->
+  Store.aget tmp (Store.nodes (fst cs)) = None ->
+  Store.root (fst cs) = Some (rid t) -> snd cs = Some (rid t) ->
+  BUGStoreProofs.tree_of (Store.nodes (fst cs)) t -> NoDup (ids t) ->
+  (forall k nd, Store.aget k (Store.nodes (fst cs)) = Some nd -> Store.parent nd <> None -> Store.children nd = [] -> Store.nopen nd = 1) ->
+  exists cs', BUGStore.root_update fixed bcoff tmp t cs = Some cs' /\
+    Inv.wfb (fst cs') = true /\
+    CanonTree.same_tree (Store.nodes (fst cs)) (Store.nodes (fst cs')) /\ CanonTree.tstruct (Store.nodes (fst cs')) /\
+    (forall k, In k (Store.akeys (Store.nodes (fst cs))) -> Store.aget (BUGStore.bcid bcoff k) (Store.nodes (fst cs')) = None) /\
+    Store.aget tmp (Store.nodes (fst cs')) = None /\
+    Store.root (fst cs') = Store.root (fst cs) /\ snd cs' = Some (rid t) /\
+    Canon.iso_check cs' = true /\ BUGStoreProofs.grows (fst cs) (fst cs').
+Proof. exact BUGStoreWf.root_update_total_wf. Qed.
+Print Assumptions C09_store_step_total_wf.
+
+(* (h) through the executable checker of the hypotheses; in particular the step can be iterated: the returned state
+   satisfies the well-formedness hypothesis of the next step *)
+Theorem C09_store_step_total_wf_checked : forall (fixed : bool) (bcoff : nat) (tmp : Store.id) (t : rtree) (cs : Canon.cstore),
+  BUGStoreTotal.bug_hypb bcoff tmp t cs = true ->
+  exists cs', BUGStore.root_update fixed bcoff tmp t cs = Some cs' /\ Inv.wfb (fst cs') = true /\
+    CanonTree.same_tree (Store.nodes (fst cs)) (Store.nodes (fst cs')) /\ Canon.iso_check cs' = true /\ snd cs' = Some (rid t).
+Proof. exact BUGStoreWf.root_update_total_wf_checked. Qed.
+Print Assumptions C09_store_step_total_wf_checked.
+
+(* the induction behind (g): update_node on any subtree, under the invariant ctx2 (ctx of (e); the re-centred copies keep
+   the open wires of every node; tensors only exist for identifiers with a node record), is accepted and every node of
+   the subtree is `fin`ished: exact logical axes, a permutation, recorded shape = tensor shape, registered wires; the new
+   parent wires are pairwise distinct, allocated during the call; the basis-change node left behind carries
+   [the wire of the node's parent leg in the enclosing call's state; the node's new parent wire]; the tensor of every
+   finished node is one atom allocated during the call, nothing summed inside, and - under the proposition Q, which stands
+   for "no key of the atom table is beyond the atom counter" (Q := False for (g), Q := True for (i)) - its table entry lists
+   axes of the tensor *)
+Theorem C09_store_update_node_finished : forall (Q : Prop) (fixed : bool) (bcoff : nat) (tmp : Store.id) (t : rtree),
+  BUGStoreWf.A2 Q fixed bcoff tmp t.
+Proof. exact BUGStoreWf.update_node_some2. Qed.
+Print Assumptions C09_store_update_node_finished.
+
+(* the re-centring move_orthogonalization_center(node, KEEP) keeps the open wires of every node (only edge wires are
+   replaced), besides being accepted between any two nodes of a well-formed store and keeping every leg dimension *)
+Theorem C09_store_move_center_keeps_open_wires : forall (s : Store.store) (c0 c tmp : Store.id),
+  Inv.wf s -> Store.aget tmp (Store.nodes s) = None -> Store.amem c0 (Store.nodes s) = true -> Store.amem c (Store.nodes s) = true ->
+  exists s', Canon.move_center (s, Some c0) c Store.Keep tmp = Some (s', Some c) /\
+    Inv.wf s' /\ CanonTree.same_tree (Store.nodes s) (Store.nodes s') /\ Store.aget tmp (Store.nodes s') = None /\
+    (forall k na nb, Store.aget k (Store.nodes s) = Some na -> Store.aget k (Store.nodes s') = Some nb ->
+       Inv.open_of nb (Inv.tens s' k) = Inv.open_of na (Inv.tens s k)).
+Proof.
+  intros s c0 c tmp W Ht H0 Hc. destruct (BUGStoreWf.move_center_ok2 s c0 c tmp W Ht H0 Hc) as (s' & E & W' & S & R & _ & O).
+  exists s'. split; [exact E|]. split; [exact W'|]. split; [exact S|]. split; [exact R|exact O].
+Qed.
+Print Assumptions C09_store_move_center_keeps_open_wires.
+
+(* (i) the extended invariant wfsb of C02 (TTN/InvSem.v: wfb, and every wire of every atom of a tensor is an axis of that
+   tensor or summed inside it, summed wires private / registered, every atom occurs once in the whole network, was allocated
+   and has an atom-table entry, atom-table keys allocated) is preserved by the step: the value-level theorems about wfsb stores
+   (C02 / C08 net_value) apply to the returned state.  Proof: the atom table only grows by appending fresh keys (every primitive
+   and the whole recursion incl. the re-centring, no hypothesis), every returned tensor is ONE atom (the Q factor of its QR
+   kernel call resp. the time-evolved root tensor) whose entry lists axes of the tensor, allocated during the processing of
+   its own subtree, hence pairwise distinct *)
+Theorem C09_store_step_wfsb : forall (fixed : bool) (bcoff : nat) (tmp : Store.id) (t : rtree) (cs cs' : Canon.cstore),
+  InvSem.wfsb (fst cs) = true ->
+  (forall k, In k (Store.akeys (Store.nodes (fst cs))) -> Store.aget (BUGStore.bcid bcoff k) (Store.nodes (fst cs)) = None) ->
+  Store.aget tmp (Store.nodes (fst cs)) = None ->
+  Store.root (fst cs) = Some (rid t) -> snd cs = Some (rid t) ->
+  BUGStoreProofs.tree_of (Store.nodes (fst cs)) t -> NoDup (ids t) ->
+  (forall k nd, Store.aget k (Store.nodes (fst cs)) = Some nd -> Store.parent nd <> None -> Store.children nd = [] -> Store.nopen nd = 1) ->
+  BUGStore.root_update fixed bcoff tmp t cs = Some cs' -> InvSem.wfsb (fst cs') = true.
+Proof. exact BUGStoreWf.root_update_wfsb. Qed.
+Print Assumptions C09_store_step_wfsb.
+
+(* (e), (f), (i) together *)
+Theorem C09_store_step_total_wfs : forall (fixed : bool) (bcoff : nat) (tmp : Store.id) (t : rtree) (cs : Canon.cstore),
+  InvSem.wfsb (fst cs) = true ->
+  (forall k, In k (Store.akeys (Store.nodes (fst cs))) -> Store.aget (BUGStore.bcid bcoff k) (Store.nodes (fst cs)) = None) ->
+  Store.aget tmp (Store.nodes (fst cs)) = None ->
+  Store.root (fst cs) = Some (rid t) -> snd cs = Some (rid t) ->
+  BUGStoreProofs.tree_of (Store.nodes (fst cs)) t -> NoDup (ids t) ->
+  (forall k nd, Store.aget k (Store.nodes (fst cs)) = Some nd -> Store.parent nd <> None -> Store.children nd = [] -> Store.nopen nd = 1) ->
+  exists cs', BUGStore.root_update fixed bcoff tmp t cs = Some cs' /\
+    InvSem.wfsb (fst cs') = true /\
+    CanonTree.same_tree (Store.nodes (fst cs)) (Store.nodes (fst cs')) /\ CanonTree.tstruct (Store.nodes (fst cs')) /\
+    (forall k, In k (Store.akeys (Store.nodes (fst cs))) -> Store.aget (BUGStore.bcid bcoff k) (Store.nodes (fst cs')) = None) /\
+    Store.aget tmp (Store.nodes (fst cs')) = None /\
+    Store.root (fst cs') = Store.root (fst cs) /\ snd cs' = Some (rid t) /\
+    Canon.iso_check cs' = true /\ BUGStoreProofs.grows (fst cs) (fst cs').
+Proof. exact BUGStoreWf.root_update_total_wfs. Qed.
+Print Assumptions C09_store_step_total_wfs.
+
+Theorem C09_store_step_total_wfs_checked : forall (fixed : bool) (bcoff : nat) (tmp : Store.id) (t : rtree) (cs : Canon.cstore),
+  InvSem.wfsb (fst cs) = true -> BUGStoreTotal.bug_hypb bcoff tmp t cs = true ->
+  exists cs', BUGStore.root_update fixed bcoff tmp t cs = Some cs' /\ InvSem.wfsb (fst cs') = true /\
+    CanonTree.same_tree (Store.nodes (fst cs)) (Store.nodes (fst cs')) /\ Canon.iso_check cs' = true /\ snd cs' = Some (rid t).
+Proof. exact BUGStoreWf.root_update_total_wfs_checked. Qed.
+Print Assumptions C09_store_step_total_wfs_checked.
+
+(* the atom table only grows by appending fresh keys, whatever the recursion does (no hypothesis) *)
+Theorem C09_store_update_node_atab_grows : forall (fixed : bool) (bcoff : nat) (tmp : Store.id) (t : rtree)
+    (g : Store.store) (pv : BUGStore.view) (pc : option Store.id) (g' : Store.store),
+  BUGStore.update_node fixed bcoff tmp t g pv pc = Some g' ->
+  exists E, Store.atab g' = Store.atab g ++ E /\
+    (forall a, In a (Store.akeys E) -> Store.next_atom g <= a < Store.next_atom g') /\ Store.next_atom g <= Store.next_atom g'.
+Proof. exact BUGStoreWf.update_node_aapp. Qed.
+Print Assumptions C09_store_update_node_atab_grows.
+
+(* the hypotheses of (i) are satisfiable and the conclusion is observed: the stores of C09_example_total_hyps satisfy wfsb,
+   so do the returned stores (both variants), and a second step from the returned state is again accepted and wfsb *)
+Example C09_example_wfsb :
+  (let s0 := fst (Store.run Store.empty_store
+                    [Store.AddRoot 0 [2; 2; 3]; Store.AddChild 1 [2; 2; 2] 0 0 0; Store.AddChild 2 [2; 3] 0 0 1;
+                     Store.AddChild 3 [2; 2] 0 1 1]) in
+   let t0 := RNode 0 [RNode 2 []; RNode 1 [RNode 3 []]] in
+   let two := fun fixed => match BUGStore.root_update fixed 30 70 t0 (s0, Some 0) with
+                           | Some cs' => (InvSem.wfsb (fst cs') && BUGStoreTotal.bug_hypb 30 70 t0 cs',
+                                          match BUGStore.root_update fixed 30 70 t0 cs' with
+                                          | Some cs'' => InvSem.wfsb (fst cs'') && Canon.iso_check cs''
+                                          | None => false
+                                          end)
+                           | None => (false, false)
+                           end in
+   (InvSem.wfsb s0, two true, two false))
+  = (true, (true, true), (true, true)).
+Proof. vm_compute. reflexivity. Qed.
+Print Assumptions C09_example_wfsb.
